@@ -197,7 +197,8 @@ func runC02(c *Ctx) {
 		"--- threadz 1 ---\n\n--- Thread 7f0 (name: a/1) stack: ---\n  0x400100 0x400200\n",
 		"--- contentionz 1 ---\ncycles/second = 1000\n10 2 @ 0x400100 0x400200\n",
 	}
-	names := []string{"(deleted)", "/bin/app (deleted)", " (deleted)", "[vdso]", "[heap]", "", "/lib/x.so", "/lib/x.so.1 (deleted)", "a b", "[", "/bin/app"}
+	names := []string{"(deleted)", "/bin/app (deleted)", " (deleted)", "[vdso]", "[heap]", "", "/lib/x.so", "/lib/x.so.1 (deleted)", "a b", "[", "/bin/app",
+		"/anon_hugepage", "/anon_hugepage (deleted)", "/anon_hugepage2", "[anon_hugepage]"}
 	for i := 0; i < c.Budget(150, 5000); i++ {
 		doc := heads[r.Intn(len(heads))]
 		if r.Bool() {
@@ -279,6 +280,58 @@ func runC02(c *Ctx) {
 			doc += "\nMAPPED_LIBRARIES:\n00400000-00500000 r-xp 00000000 fd:01 1234 /bin/app\n"
 		}
 		parseCase("legacy-extreme", []byte(doc), "stream:legacy-extreme")
+	}
+	// 8. legacy binary CPU profiles (profilez: header 0,3,0|1,period,0; records count,depth,pcs...;
+	// trailer 0,1,0) in 32/64-bit words of either byte order, with extreme count / depth / period words
+	// (k*2^62, 2^63, 2^64-1, 2^32-1 ...) and truncated tails, optionally followed by a memory map
+	xw := []uint64{0, 1, 2, 3, 1 << 31, 1<<32 - 1, 1 << 32, 1 << 62, 1<<62 + 1, 1 << 63, 1<<63 + 2, 3 << 62, 3<<62 + 1, ^uint64(0), ^uint64(0) - 1, 1<<63 - 1}
+	for i := 0; i < c.Budget(200, 6000); i++ {
+		wide, big := r.P(2, 3), r.P(1, 4)
+		var buf []byte
+		put := func(v uint64) {
+			n := 4
+			if wide {
+				n = 8
+			}
+			for k := 0; k < n; k++ {
+				sh := uint(8 * k)
+				if big {
+					sh = uint(8 * (n - 1 - k))
+				}
+				buf = append(buf, byte(v>>sh))
+			}
+		}
+		word := func(normal uint64) uint64 {
+			if r.P(1, 6) {
+				return xw[r.Intn(len(xw))]
+			}
+			return normal
+		}
+		put(0)
+		put(3)
+		put(uint64(r.Intn(2))) // C++ or Java flavour
+		put(word(uint64(1 + r.Intn(10000))))
+		put(0)
+		for k := r.Intn(5); k > 0; k-- {
+			depth := uint64(1 + r.Intn(4))
+			put(word(uint64(1 + r.Intn(9))))
+			put(word(depth))
+			for d := uint64(0); d < depth; d++ {
+				put(word(0x400100 + uint64(r.Intn(64))*16))
+			}
+		}
+		if r.P(4, 5) {
+			put(0)
+			put(1)
+			put(0)
+		}
+		if r.P(1, 8) && len(buf) > 0 {
+			buf = buf[:r.Intn(len(buf))]
+		}
+		if r.P(1, 3) {
+			buf = append(buf, []byte("00400000-00500000 r-xp 00000000 fd:01 1234 "+names[r.Intn(len(names))]+"\n")...)
+		}
+		parseCase("legacy-cpu-binary", buf, "stream:legacy-cpu-binary")
 	}
 	os.Remove("inflight.txt")
 	c.Extra["slow_parses"] = slow
